@@ -104,7 +104,7 @@ class FileBasedTapeCassette(TapeCassette):
 
             ids.append(recording.id)
 
-        if limit:
+        if limit is not None:
             ids = ids[:limit]
 
         return iter(ids)
